@@ -75,6 +75,55 @@ def cases(tier, rng, schema, feats):
         for cap in (1, 2, 3, 64):
             for p in priors(cap):
                 add(variant, cap, p, "-")
+    # sliding window: small values of every response (byte strings and text cut to a few bytes, lists to zero / one element, every
+    # optional member set, then random subsets) against EVERY capacity 1..80, so that the buffer ends at every offset of every member -
+    # inside a key, inside a nested map, between two members of a nested structure
+    def small(ty, v, flip):
+        """type-directed: only variable-length byte strings, text and lists are cut; fixed-size arrays and keys stay whole"""
+        k = ty[0]
+        if k in ("bytescap", "bytesref", "sliceref") and v[0] == "b":
+            return ("b", v[1][: rng.choice([0, 3, 6, 12, 20])])
+        if k in ("strcap", "strref") and v[0] == "s":
+            t = v[1][: rng.choice([0, 2, 5, 11])]
+            if isinstance(t, (bytes, bytearray)):
+                t = bytes(t).decode("utf-8", errors="ignore").encode()   # never cut inside a character
+            return ("s", t)
+        if k == "vec" and v[0] == "L":
+            xs = [small(ty[1], x, flip) for x in v[1]]
+            return ("L", [] if rng.chance(1, 2) else xs[:1])
+        if k == "opt":
+            return ("S", small(ty[1], v[1], flip)) if v[0] == "S" else v
+        if k == "named":
+            d = schema.get(ty[1])
+            if d and d["kind"] == "struct" and v[0] == "R":
+                tys = {f["label"]: f["ty"] for f in d["fields"]}
+                return ("R", [(l, small(tys[l], x, flip) if l in tys else x) for l, x in v[1]])
+            if d and d["kind"] == "untagged" and v[0] == "V":
+                vt = dict(d["variants"]).get(v[1])
+                return ("V", v[1], small(vt, v[2], flip)) if vt else v
+            if d and d["kind"] == "custom" and v[0] == "L":
+                return ("L", [] if rng.chance(1, 2) else v[1][:1])
+        return v
+    nsmall = 12 if tier == "quick" else 40
+    for variant, t in RESPONSES.items():
+        for j in range(nsmall):
+            val = small(("named", t), g.named_val(t, present="all" if j < nsmall // 2 else None), False)
+            v = gen.show(val)
+            for cap in range(1, 81):
+                add(variant, cap, "-", v)
+    # the one nested structure with several members of very different sizes (packed attestation statement): every combination of a
+    # short / medium signature with x5c absent, empty and holding one short certificate, against every capacity of the menu up to 129
+    for variant, t in (("MakeCredential", RESPONSES["MakeCredential"]), ("GetAssertion", RESPONSES["GetAssertion"])):
+        for sigl in (0, 8, 20, 40):
+            for x5c in (("N",), ("S", ("L", [])), ("S", ("L", [("b", b"\x30\x03\x01\x02\x03")]))):
+                base = small(("named", t), g.named_val(t, present="none"), False)
+                st = ("S", ("V", "Packed", ("R", [("alg", ("i", -7)), ("sig", ("b", b"\x5a" * sigl)), ("x5c", x5c)])))
+                fs = [(l, st if l == "att_stmt" else x) for l, x in base[1]]
+                if variant == "MakeCredential":
+                    fs = [(l, ("E", "Packed") if l == "fmt" else x) for l, x in fs]
+                v = gen.show(("R", fs))
+                for cap in [c for c in CAPS if c <= 129] + list(range(11, 81)):
+                    add(variant, cap, "-", v)
     return out
 
 
